@@ -74,7 +74,7 @@ func checkC07(c *evalCase) error {
 
 func TestC07(t *testing.T) {
 	runWitnesses(t, "C07")
-	runProp(t, "functions", 60000, 6000000, func(t *rapid.T) {
+	runProp(t, "functions", 360000, 6000000, func(t *rapid.T) {
 		s, u, w := genUni(t, "s"), genUni(t, "u"), genUni(t, "w")
 		a, b := genBound(t, "p"), genBound(t, "l")
 		c := &evalCase{Events: []xmodel.Event{{K: "S", Local: "r"}, {K: "T", Value: s}, {K: "E"}}, Ctx: "/",
@@ -131,7 +131,7 @@ func TestC07(t *testing.T) {
 		}
 	})
 	// literal arguments (strings written into the expression)
-	runProp(t, "literals", 8000, 400000, func(t *rapid.T) {
+	runProp(t, "literals", 48000, 400000, func(t *rapid.T) {
 		lit := func(label string) *xast.Expr {
 			for {
 				s := genUni(t, label)
